@@ -352,8 +352,11 @@ def report(ctx: click.Context, tjp_file: Optional[str], output_csv: bool, output
                 "This may indicate a scheduling issue with your project."
             )
 
-        # Get the primary output file (first one)
-        primary_output = output_files[0]
+        # The report to emit is the auto-generated one - not whichever file of the
+        # project's own reports the directory listing happens to return first.
+        primary_output = temp_output_dir / f"{auto_report_id}.{output_format}"
+        if not primary_output.exists():
+            raise ReportGenerationError("Report generation completed but the report file is missing.")
 
         if verbose:
             logger.debug("Reading report from: %s", primary_output)
